@@ -271,7 +271,7 @@ pub fn check_c01(run: &Run) -> Value {
     let b = bounds(run.tier);
     let cases = c01_cases(&b);
     let seed = run.seed;
-    let total = run_cases(&cases, &|i, desc, out| {
+    let mut total = run_cases(&cases, &|i, desc, out| {
         if nontrivial(desc) {
             out.nontrivial += 1;
         }
@@ -287,12 +287,15 @@ pub fn check_c01(run: &Run) -> Value {
             out.samples.push(serde_json::to_string(desc).unwrap());
         }
     });
+    let (c0, e0) = (total.cases, total.executions);
+    let scalar = crate::scalar::sweep(run, crate::scalar::Which::RoundTrip, &mut total);
     total.report(run);
     println!(
-        "C01 sweep: cases={} roundtrips={} outcomes={:?}",
-        total.cases, total.executions, total.outcomes
+        "C01 sweep: cases={} roundtrips={} outcomes={:?} scalar={}",
+        c0, e0, total.outcomes, scalar
     );
     json!({
+        "scalar_sweep": scalar,
         "states": total.cases,
         "transitions": total.executions,
         "traces_validated_against_impl": total.executions,
